@@ -151,6 +151,8 @@ class State:
             s.elem_lemmas = list(self.elem_lemmas)
         if '_card' in self.__dict__:
             s._card = {k: list(v) for k, v in self._card.items()}
+        if '_filters' in self.__dict__:
+            s._filters = list(self._filters)
         if '_fi_done' in self.__dict__:
             s._fi_done = set(self._fi_done)
         return s
@@ -337,6 +339,8 @@ class Engine:
             st.elem_lemmas = list(st2.elem_lemmas)
         if '_card' in st2.__dict__:
             st._card = {k: list(v) for k, v in st2._card.items()}
+        if len(st2.__dict__.get('_filters', [])) > len(st.__dict__.get('_filters', [])):
+            st._filters = list(st2._filters)
         extra_facts = st2.path[len(st.path):]
         t = self.truth(st2, v)
         # facts introduced while evaluating the spec (ground axioms of opaque terms) are sound to assume
